@@ -553,6 +553,7 @@ func (g *pgen) stmt(lx *lex, mayEnd bool) []stmt {
 		5,  // 10 return / throw / break / continue
 		6,  // 11 recursion template
 		2,  // 12 copy any value
+		1,  // 13 loop { try { ...; break/continue } catch { .. } } (jump out of a try body)
 	}
 	if !canNest {
 		w[1], w[2], w[5], w[6], w[7], w[8] = 0, 0, 0, 0, 0, 0
@@ -562,7 +563,10 @@ func (g *pgen) stmt(lx *lex, mayEnd bool) []stmt {
 		w[2] = 0
 	}
 	if lx.inTry {
-		w[8], w[9] = 0, 0
+		w[8], w[9], w[13] = 0, 0, 0
+	}
+	if !canNest {
+		w[13] = 0
 	}
 	if lx.self == "" || len(lx.s.params) == 0 || !canNest || lx.s.isFunc || lx.s.pk[0] != kInt {
 		w[11] = 0
@@ -764,6 +768,38 @@ func (g *pgen) stmt(lx *lex, mayEnd bool) []stmt {
 		lx.set(r, kAny, nil)
 		return []stmt{&sIf{cond: &eCmp{op: ">", l: &eVar{p}, r: &eInt{0}},
 			then: []stmt{&sAssign{t, &eBin{op: "-", l: &eVar{p}, r: &eInt{1}}}, &sAssign{r, c}}}}
+	case 13:
+		v := g.pick(loopNames)
+		if lx.isOpen(v) {
+			v = "j"
+		}
+		st := &sFor{v: v, k: int64(1 + g.uni(2))}
+		lx.set(v, kInt, nil)
+		lx.loop++
+		lx.inTry = true
+		body := g.stmts(lx, 1+g.uni(2), true)
+		lx.inTry = false
+		if n := len(body); n > 0 {
+			switch body[n-1].(type) {
+			case *sReturn, *sThrow, *sBreak, *sContinue:
+				body = body[:n-1]
+			}
+		}
+		if g.chance(60) {
+			body = append(body, &sBreak{inLoop: true})
+		} else {
+			body = append(body, &sContinue{inLoop: true})
+		}
+		tr := &sTry{body: body, hasCatch: true, catchVar: "e"}
+		d := g.pick(dataNames)
+		if lx.isOpen(d) {
+			d = "y"
+		}
+		tr.catchBody = []stmt{&sAssign{d, &eInt{g.smallInt()}}}
+		lx.loop--
+		lx.set(v, kInt, nil)
+		st.body = []stmt{tr}
+		return []stmt{st}
 	case 12:
 		name := g.pick(allNames[:8])
 		src := g.readAny(lx)
